@@ -10,7 +10,8 @@ ASSUME = [
     '(weight-basis applications go through the molecular weights and are compared after rounding to denominators <= 2^20)',
     'chemicals H2, O2, H2O, CH4, CO, CO2 of the bundled database; five balanced reactions and everything reaction arithmetic builds from them',
 ]
-ALGEBRA = ['add', 'sub', 'iadd', 'isub', 'mul', 'rmul', 'div', 'imul', 'idiv', 'neg', 'copy', 'backwards', 'set_X', 'item_set_X', 'set_set_X']
+ALGEBRA = ['add', 'sub', 'iadd', 'isub', 'mul', 'rmul', 'div', 'imul', 'idiv', 'neg', 'copy', 'backwards', 'set_X', 'item_set_X', 'set_set_X',
+           'item_imul', 'item_idiv', 'set_assign_X', 'reduce', 'reduce', 'to_wt', 'to_wt', 'to_mol', 'mkset']
 APPLY = ['react', 'react_set']
 SHAPE = ['load', 'load', 'set_feed', 'mkset']
 
@@ -47,6 +48,9 @@ def run_random(rng, n, length, prefix, ops):
             obs = w.apply(op, a)
             nxt = w.project()
             if too_big(nxt):
+                obs['too_big'] = True
+                obs['reduced_m'] = []
+                steps.append(dict(op=op, a=a, post=cur, obs=obs))
                 break
             cur = nxt
             steps.append(dict(op=op, a=a, post=cur, obs=obs))
@@ -65,7 +69,9 @@ def run_steps(states, rng, n_ops, prefix, ops, slots):
             obs = w.apply(op, a)
             post = w.project()
             if too_big(post):
-                continue
+                obs['too_big'] = True
+                obs['reduced_m'] = []
+                post = st
             steps.append(dict(op=op, a=a, post=post, obs=obs))
         traces.append(dict(id='%s%d' % (prefix, k), mode='fan', init=st, steps=steps))
     return traces
@@ -77,9 +83,17 @@ def run_paths(paths, prefix, slots):
         w = dr.World(slots)
         init = w.project()
         steps = []
+        cur = init
         for e in path:
             obs = w.apply(e['op'], e['a'])
-            steps.append(dict(op=e['op'], a=e['a'], post=w.project(), obs=obs))
+            post = w.project()
+            if too_big(post):
+                obs['too_big'] = True
+                obs['reduced_m'] = []
+                steps.append(dict(op=e['op'], a=e['a'], post=cur, obs=obs))
+                break
+            cur = post
+            steps.append(dict(op=e['op'], a=e['a'], post=post, obs=obs))
         traces.append(dict(id='%s%d' % (prefix, k), mode='seq', init=init, steps=steps))
     return traces
 
@@ -115,6 +129,67 @@ def judge(ctx, traces, verdicts, stats, focus, slots):
             ctx.violation(key_of(s, clause), '%s %r: %s (exc=%s %s)' % (s['op'], s['a'], clause, s['obs']['exc'], s['obs'].get('msg', '')), rp)
 
 
+def directed_paths(rng, n):
+    """Pairs of library reactions sharing a reactant, loaded with different conversions, optionally re-based, then
+    every binary / in-place operator, followed by applications of the result in every way."""
+    from fractions import Fraction as F
+    pairs = []
+    for i, a in enumerate(dr.LIB, 1):
+        for j, b in enumerate(dr.LIB, 1):
+            for c in range(len(dr.IDS)):
+                if a[c] < 0 and b[c] < 0:
+                    pairs.append((i, j, c + 1))
+    out = []
+    hows = ['stream', 'stream_wt', 'stream_wt_mol', 'stream_other', 'stream_other_reset', 'array', 'sparse']
+    for _ in range(n):
+        i, j, r = rng.choice(pairs)
+        X1, X2 = rng.sample([F(1, 4), F(1, 2), F(3, 4), F(1, 8)], 2)
+        ops = [('load', dict(x='r1', i=i, r=r, X=dr.q(X1))), ('load', dict(x='r2', i=j, r=r, X=dr.q(X2))),
+               ('set_feed', dict(f=[dr.q(F(rng.choice([2, 4, 8]))) for _ in dr.IDS]))]
+        for slot in ('r1', 'r2'):
+            b = rng.choice(['mol', 'wt', 'wt_mol'])
+            if b in ('wt', 'wt_mol'):
+                ops.append(('to_wt', dict(d=slot, x=slot)))
+            if b == 'wt_mol':
+                ops.append(('to_mol', dict(d=slot, x=slot)))
+        op = rng.choice(['add', 'sub', 'iadd', 'isub'] * 3 + ['mul', 'rmul', 'div', 'imul', 'idiv', 'neg', 'backwards'])
+        if op in ('add', 'sub'):
+            ops.append((op, dict(d='r3', x='r1', y='r2')))
+            res = 'r3'
+        elif op in ('iadd', 'isub'):
+            ops.append((op, dict(x='r1', y='r2')))
+            res = 'r1'
+        elif op in ('mul', 'rmul', 'div'):
+            ops.append((op, dict(d='r3', x='r1', q=dr.q(rng.choice([F(1, 2), F(2), F(1, 4)])))))
+            res = 'r3'
+        elif op in ('imul', 'idiv'):
+            ops.append((op, dict(x='r1', q=dr.q(rng.choice([F(1, 2), F(2)])))))
+            res = 'r1'
+        elif op == 'neg':
+            ops.append((op, dict(d='r3', x='r1')))
+            res = 'r2'
+        else:
+            prods = [c + 1 for c, v in enumerate(dr.LIB[i - 1]) if v > 0]
+            ops.append((op, dict(d='r3', x='r1', p=rng.choice(prods), auto=False)))
+            res = 'r3'
+        ops.append(('react', dict(x=res, how=rng.choice(hows))))
+        if rng.random() < 0.5:
+            # a chain: the second member's reactant is a product of the first (parallel must still use the FEED composition)
+            chains = [(i2, j2, c2 + 1) for i2, a2 in enumerate(dr.LIB, 1) for j2, b2 in enumerate(dr.LIB, 1) for c2 in range(len(dr.IDS))
+                      if a2[c2] > 0 and b2[c2] < 0]
+            i2, j2, c2 = rng.choice(chains)
+            r_first = rng.choice([c + 1 for c, v in enumerate(dr.LIB[i2 - 1]) if v < 0])
+            ops += [('load', dict(x='r1', i=i2, r=r_first, X=dr.q(rng.choice([F(1, 2), F(1, 4)])))),
+                    ('load', dict(x='r2', i=j2, r=c2, X=dr.q(rng.choice([F(1, 2), F(3, 4)]))))]
+            ops.append(('mkset', dict(kind=rng.choice(['parallel', 'parallel', 'series', 'system']), xs=rng.choice([['r1', 'r2'], ['r2', 'r1'], ['r1', 'r2', 'r1']]))))
+        else:
+            ops.append(('mkset', dict(kind=rng.choice(['parallel', 'series', 'system']), xs=rng.sample(['r1', 'r2', 'r1'], 2))))
+        ops.append(('set_feed', dict(f=[dr.q(F(rng.choice([2, 4, 8]))) for _ in dr.IDS])))
+        ops.append(('react_set', dict(how=rng.choice(['stream', 'stream_wt', 'array']))))
+        out.append([dict(op=o, a=a) for o, a in ops])
+    return out
+
+
 def run(ctx, prop, focus, shaping):
     rng = random.Random(ctx.seed)
     quick = ctx.quick
@@ -134,6 +209,7 @@ def run(ctx, prop, focus, shaping):
     groups.append((mslots, run_paths(wsample, 'W', mslots)))
     ssample = rng.sample(dstates, min(150 if quick else 5000, len(dstates)))
     groups.append((mslots, run_steps(ssample, rng, 12 if quick else 30, 'S', list(focus) * 2 + list(shaping), mslots)))
+    groups.append((mslots, run_paths(directed_paths(rng, 150 if quick else 4000), 'D', mslots)))
     groups.append((dr.SLOTS, run_random(rng, 100 if quick else 3000, 30, 'R', list(focus) * 2 + list(shaping) + ALGEBRA[:6] + APPLY)))
     n_tr = 0
     for slots, traces in groups:
@@ -146,7 +222,7 @@ def run(ctx, prop, focus, shaping):
                traces_truncated_out_of_contract=stats['truncated'], per_operation_in_contract_steps=stats['ops'],
                rejections_on_operations_owned_by_sibling_checks=stats['other_property'],
                exhaustive=False, mc_exhaustive_for_cfg=True, mc_depth_bound=3 if quick else 4,
-               samples=[dict(ops=[[s['op'], s['a']] for s in groups[2][1][0]['steps'][:6]])],
+               samples=[dict(ops=[[s['op'], s['a']] for s in groups[-1][1][0]['steps'][:6]])],
                rule='MC: all sequences (depth bound) of load / feed / react / react-set / reaction arithmetic over 3 slots, 5 balanced reactions on 6 real '
                     'chemicals, with action properties ReactConserves, ReactConverts, AddIsParallel and invariant SubUndoesAdd; STEP at TLC-dumped states; '
                     'witness paths; random 30-step histories; every step validated by TLC')
